@@ -22,6 +22,10 @@ COMPS_F = [{"C": 2.4, "H": 5, "N": 0.7}, {"C": 1.5, "H": 2}, {"H": 2.5, "O": 1, 
 COMPS_Q = COMPS_Q + COMPS_F
 F_NEUTRON_FRAC = "C14-F1"   # neutron-offset view with masses: the fractional-count correction is multiplied by the neutron mass
 COMPS_T = COMPS_Q + [{"C": 3, "H": 3, "N": 1, "O": 2}, {"Cl": 2, "C": 1}, {"C": 6, "H": 6}, {"N": 3, "O": 3}, {"C": 2, "S": 2}]
+# since session 5 the quick tier runs the former thorough scope (about 1.5 min); thorough adds heavier and multi-isotope formulas
+# (elements of the independent isotope table vf/oracles.py only; Se: lightest isotope is not the most abundant one)
+COMPS_D = COMPS_T + [{"C": 4, "H": 6, "O": 2}, {"Se": 1, "C": 1, "H": 2}, {"K": 1, "Cl": 1}, {"Ca": 1, "O": 1}, {"Mg": 1, "Cl": 2}, {"Li": 2, "O": 1},
+                     {"Na": 1, "I": 1}, {"C": 2, "H": 6, "Se": 1}]
 SMALL = [{"C": 1}, {"C": 2}, {"C": 1, "H": 2}, {"H": 2, "O": 1}, {"C": 1, "N": 1, "H": 1}, {"Cl": 2}]
 
 
@@ -29,6 +33,18 @@ def _mono(el: str):
     """monoisotopic mass of an element symbol or of an isotope label, from the independent table"""
     from .. import oracles as O
     return O.mono(el) if el in O.ISOTOPES else O.isotope(el)
+
+
+def _lightest_is_mono(comp) -> bool:
+    """the property asserts 'lightest peak = monoisotopic mass' only for elements whose lightest isotope is the most abundant one
+    (C, H, N, O, S, P; also true of Cl, Br, K, Si) - not for Se, Fe, B, ..., whose monoisotopic mass is a heavier isotope's"""
+    import peptacular.constants as K
+    tab = K.ATOMIC_SYMBOL_TO_ISOTOPE_MASSES_AND_ABUNDANCES
+    for el in comp:
+        iso = tab.get(el)
+        if iso and len(iso) > 1 and max(iso, key=lambda t: t[1])[0] != min(iso, key=lambda t: t[0])[0]:
+            return False
+    return True
 
 
 def _binning_job(args) -> Obligation:
@@ -285,7 +301,9 @@ def _scaling_job(args, excl=()) -> Obligation:
         # it is the most abundant combination of lightest isotopes and survives any threshold <= 1 only if it is the base peak;
         # the clause is therefore asserted when the threshold is 0)
         mono = sum(float(_mono(el)) * cnt for el, cnt in comp.items())
-        if not use_n or out_m:
+        if not _lightest_is_mono(comp):
+            pass        # outside the clause (quantifier): normalisation and sortedness only
+        elif not use_n or out_m:
             want = mono
             if with_particles:
                 want = mono + SR.T(e) * K.ELECTRON_MASS + SR.T(p) * K.PROTON_MASS + SR.T(n) * K.NEUTRON_MASS
@@ -324,7 +342,8 @@ def main(p):
         if not p["is_sum"] and abs(max(ab) - A) > 1e-6 * max(1, A): bad.append(f"max {max(ab)} != {A}")
         from vf.props.c14 import _mono
         mono = sum(float(_mono(e)) * c for e, c in comp.items())
-        if th == 0 and (not p["use_n"] or p["out_m"]):
+        from vf.props.c14 import _lightest_is_mono
+        if th == 0 and (not p["use_n"] or p["out_m"]) and _lightest_is_mono(comp):
             want = mono
             if p["with_particles"]:
                 want += f["e"] * K.ELECTRON_MASS + f["p"] * K.PROTON_MASS + f["n"] * K.NEUTRON_MASS
@@ -467,7 +486,7 @@ def _dispatch1(job):
 
 
 def run(tier: str, seed: int, only=None) -> Report:
-    comps = COMPS_Q if tier == "quick" else COMPS_T
+    comps = COMPS_T if tier == "quick" else COMPS_D
     known = tuple(f["id"] for f in load_known_findings(PID))
     jobs = []
     for comp in comps:
@@ -481,7 +500,7 @@ def run(tier: str, seed: int, only=None) -> Report:
     for comp in comps:
         for is_sum in (False, True):
             jobs.append(("binning", (comp, is_sum)))
-    for mass0 in ((300.0, 1234.5678) if tier == "quick" else (57.02, 300.0, 1234.5678, 4321.0)):
+    for mass0 in ((57.02, 300.0, 1234.5678, 4321.0) if tier == "quick" else (57.02, 113.084, 300.0, 799.36, 1234.5678, 2500.25, 4321.0)):
         for use_n, out_m in ((False, False), (True, False), (True, True)):
             for is_sum in (False, True):
                 for th in (0.0, 0.001):
